@@ -292,6 +292,65 @@ def r6_handout(r, facts):
     r.floor(3)
 
 
+def r6b_value_flow(r, facts):
+    """the value given to map_ok is the result taken by next() in this very poll, checked by check_result"""
+    f = facts.fn(life.POLL_INNER)
+    eb = ExprBuilder(f, multi='phi')
+    maps = life.param_calls(f, 'map_ok')
+    r.require(len(maps) >= 2, 'poll_inner/map_ok-sites', 'expected map_ok call sites in the multishot-running and the done arm, found %d' % len(maps), f.where())
+    for loc, t in maps:
+        tup = eb.operand(t['args'][1])
+        ok = False
+        detail = str(tup)[:160]
+        if tup[0] == 'agg' and len(tup[3]) == 3:
+            opret = tup[3][2]
+            if opret[0] == 'agg' and len(opret[3]) == 2:
+                flags, res = opret[3]
+                nexts = [x for x in subexprs(flags) if x[0] == 'call' and x[1].endswith('OpResult::next')]
+                chk = [x for x in subexprs(res) if x[0] == 'call' and x[1] == 'io_uring::op::CompletionResult::check_result']
+                nx2 = [x for x in subexprs(res) if x[0] == 'call' and x[1].endswith('OpResult::next')]
+                ok = bool(nexts) and bool(chk) and bool(nx2) and fam.last_field(flags) == 'flags' and nexts[0] == nx2[0]
+                detail = 'flags<-%s res<-check_result(next())' % ('next().flags' if nexts else '?')
+        r.inst('map_ok value: %s' % detail, f.where(loc))
+        r.require(ok, 'poll_inner/value-origin', 'the (flags, result) pair handed to map_ok is not the completion result just taken with next() and validated by check_result: %s' % str(tup)[:300], f.where(loc))
+    # fallback gets the error of the same result
+    for loc, t in life.param_calls(f, 'fallback'):
+        tup = eb.operand(t['args'][1])
+        ok = any(x[0] == 'call' and x[1] == 'io_uring::op::CompletionResult::check_result' for x in subexprs(tup))
+        r.inst('fallback error origin', f.where(loc))
+        r.require(ok, 'poll_inner/fallback-origin', 'fallback is not given the error of this completion', f.where(loc))
+    # check_result: non-negative -> Ok(result), negative -> Err(from_raw_os_error(-result))
+    c = facts.fn('io_uring::op::CompletionResult::check_result')
+    ec = ExprBuilder(c, multi='phi')
+    oks = errs = 0
+    for loc, s in c.assigns():
+        if s['lhs']['l'] == 0 and s['rv']['k'] == 'agg':
+            e = ec.rvalue(s['rv'])
+            if s['rv'].get('variant') == 'Ok':
+                oks += any(x[0] == 'call' and x[1].endswith('try_from') for x in subexprs(e)) or fam.last_field(e[3][0]) == 'result' or 'result' in str(e)
+            if s['rv'].get('variant') == 'Err':
+                errs += any(x[0] == 'call' and x[1] == 'std::io::Error::from_raw_os_error' and any(y[0] == 'un' and y[1] == 'Neg' for y in subexprs(x)) for x in subexprs(e))
+    r.inst('check_result: Ok arms=%d Err(from_raw_os_error(-result)) arms=%d' % (oks, errs), c.where())
+    r.require(oks >= 1 and errs >= 1, 'check_result', 'check_result is not `u32::try_from(result)` / `Err(from_raw_os_error(-result))`', c.where())
+    # the handler stores this completion's res/flags (not swapped, not from elsewhere)
+    u = facts.fn(life.UPDATE)
+    eu = ExprBuilder(u, multi='phi')
+    ups = [(loc, t) for loc, t in u.calls() if (t.get('callee') or '').endswith('OpResult::update')]
+    r.require(len(ups) == 1, 'Shared::update/store', 'expected one results.update(..) in Shared::update', u.where())
+    for loc, t in ups:
+        cr = eu.operand(t['args'][1])
+        fl = eu.operand(t['args'][2])
+        ok = cr[0] == 'agg' and cr[1].endswith('CompletionResult::CompletionResult')
+        if ok:
+            m = dict(zip(cr[2], cr[3]))
+            okr = fam.last_field(m.get('result', ('x',))) == 'res' and access_path(m['result'])[0][0] == 'arg'
+            okf = any(fam.last_field(x) == 'flags' for x in subexprs(m.get('flags', ('x',))))
+            ok = okr and okf and fam.last_field(fl) == 'flags'
+        r.inst('update stores CompletionResult{result: cqe.res, flags: cqe.flags}', u.where(loc))
+        r.require(ok, 'Shared::update/store-fields', 'the stored result is not (res, flags) of the completion being processed: %s' % (cr,), u.where(loc))
+    r.floor(3)
+
+
 def check(ctx):
     ctx.run('C02.R1', 'writers of sqe.user_data: submit closure (State::user_data, last writer) + 3 bookkeepers with reserved constants', r1_user_data_writers)
     ctx.run('C02.R2', 'tag = address of Data | IS_MULTISHOT tag; constants; Data repr(C), Mutex first, align >= 4', r2_tag_layout)
@@ -299,4 +358,5 @@ def check(ctx):
     ctx.run('C02.R4', 'two-step: a NOTIF completion never overwrites the stored result; next() returns it', r4_notif)
     ctx.run('C02.R5', 'multishot results are queued FIFO (push back / remove front), has_next = !is_empty', r5_fifo)
     ctx.run('C02.R6', 'hand-out: end of stream => Complete + done(); single-shot Complete before value; Complete/Dropped arms never return', r6_handout)
+    ctx.run('C02.R6b', 'the value handed out is the result taken by next() in this poll, validated by check_result', r6b_value_flow)
     ctx.run('C02.R7', 'LIFE-4: Running->Done and the wake only on the final completion / multishot progress', life.life4)
